@@ -1003,11 +1003,12 @@ func (c *Controller) workloadInstanceHandler(si *model.WorkloadInstance, event m
 
 	// this is from a workload entry. Store it in separate index so that
 	// the InstancesByPort can use these as well as the k8s pods.
+	var previous *model.WorkloadInstance
 	switch event {
 	case model.EventDelete:
 		c.workloadInstancesIndex.Delete(si)
 	default: // add or update
-		c.workloadInstancesIndex.Insert(si)
+		previous = c.workloadInstancesIndex.Insert(si)
 	}
 
 	// find the workload entry's service by label selector
@@ -1021,6 +1022,22 @@ func (c *Controller) workloadInstanceHandler(si *model.WorkloadInstance, event m
 	// find the services that map to this workload entry, fire off eds updates if the service is of type client-side lb
 	allServices := c.services.List(si.Namespace, klabels.Everything())
 	matchedServices := getPodServices(allServices, dummyPod)
+	if previous != nil && previous.Namespace == si.Namespace && !previous.Endpoint.Labels.Equals(si.Endpoint.Labels) {
+		// The labels changed: services that selected the previous labels but do not select the new ones
+		// must drop the instance, so they need to be recomputed as well.
+		previousPod := &v1.Pod{
+			ObjectMeta: metav1.ObjectMeta{Namespace: previous.Namespace, Labels: previous.Endpoint.Labels},
+		}
+		seen := sets.New[string]()
+		for _, svc := range matchedServices {
+			seen.Insert(svc.Name)
+		}
+		for _, svc := range getPodServices(allServices, previousPod) {
+			if !seen.InsertContains(svc.Name) {
+				matchedServices = append(matchedServices, svc)
+			}
+		}
+	}
 	matchedHostnames := slices.Map(matchedServices, func(e *v1.Service) host.Name {
 		return kube.ServiceHostname(e.Name, e.Namespace, c.opts.DomainSuffix)
 	})
